@@ -196,8 +196,18 @@ def pathline(ctx):
         path = Record(None, {}, label="OdeResult")
         path.attrs["t"] = symarr("T", (4,))
         path.attrs["sol"] = Native("sol", lambda I2, *a: Opaque("interpolant value"))
+        # the two successful outcomes of the solver: the terminal event fired (1), or the whole interval was integrated without it (0)
+        st = solver_status[0]
+        path.attrs["status"] = st
+        path.attrs["success"] = st >= 0
+        path.attrs["message"] = {1: "A termination event occurred.", 0: "The solver successfully reached the end of the integration interval.",
+                                 -1: "Required step size is less than spacing between numbers."}[st]
+        path.attrs["t_events"] = [symarr("Te", (1 if st == 1 else 0,))]
+        path.attrs["y"] = symarr("Yp", (3, 4))
+        path.attrs["nfev"] = 12
         rec["path"] = path
         return path
+    solver_status = [1]
 
     lin = {}
 
@@ -222,6 +232,19 @@ def pathline(ctx):
     if "fun" not in rec:
         ctx.ob("C18.pathline", "get_pathline:solve_ivp", "inconclusive", "no call of scipy.integrate.solve_ivp was found", loc)
         return
+    # a flow too slow to reach the strain limit (or the box) within the integration span is a pathline like any other
+    solver_status[0] = 0
+    keep = dict(rec)
+    try:
+        out0 = I.call(f, (xf, vel, grad, lo, hi, eps))
+        ctx.ob("C18.pathline", "solver reaches the end of its interval without the event (status 0): a pathline is returned",
+               isinstance(out0, tuple) and len(out0) == 2, f"returned {type(out0).__name__}", loc)
+    except RaiseSig as r:
+        ctx.ob("C18.pathline", "solver reaches the end of its interval without the event (status 0): a pathline is returned", False,
+               f"raises {r.exc.typename}: the successful end of the integration interval is treated as a failure", loc)
+    solver_status[0] = 1
+    rec.clear()
+    rec.update(keep)
     ts = rec["t_span"]
     ok = len(ts) == 2 and lift(ts[0]).is_zero() and lift(ts[1]).is_const() and lift(ts[1]).cval() < 0
     ctx.ob("C18.pathline", "t_span starts at 0 and runs backwards", ok, f"t_span={ts!r}", loc)
